@@ -52,7 +52,8 @@ _fmt_cache = {}
 
 
 def parse_fmt(fmt):
-    """-> (byteorder, [(code, nbytes, signed)], total)"""
+    """-> (byteorder, [(code, nbytes, signed, offset)], total).  Prefixes: '<' '>' (what bisturi emits), '=' (native order,
+    standard sizes) and '@' (native order AND native alignment: padding computed with struct.calcsize)."""
     if isinstance(fmt, bytes):
         fmt = fmt.decode("latin-1")
     if not isinstance(fmt, str):
@@ -60,27 +61,36 @@ def parse_fmt(fmt):
     got = _fmt_cache.get(fmt)
     if got is not None:
         return got
-    if not fmt or fmt[0] not in "<>":
+    if not fmt or fmt[0] not in "<>=@":
         raise UnsupportedFormat(fmt)
-    order = "little" if fmt[0] == "<" else "big"
+    import sys as _sys
+    if fmt[0] in "<>":
+        order = "little" if fmt[0] == "<" else "big"
+    else:
+        order = _sys.byteorder
     items = []
     pos = 1
+    prefix = fmt[0]
+    sofar = ""
     while pos < len(fmt):
         m = _FMT_RE.match(fmt, pos)
         if not m:
             raise UnsupportedFormat(fmt)
         cnt, code = m.group(1), m.group(2)
-        if code == "s":
-            n = int(cnt) if cnt else 1
-            items.append(("s", n, False))
-        else:
-            rep = int(cnt) if cnt else 1
-            nb, signed = _INT_CODES[code]
-            for _ in range(rep):
-                items.append((code, nb, signed))
+        reps = [(code, int(cnt) if cnt else 1)] if code == "s" else [(code, None)] * (int(cnt) if cnt else 1)
+        for c, n in reps:
+            piece = ("%ds" % n) if c == "s" else c
+            size = n if c == "s" else struct.calcsize(prefix + c)
+            sofar += piece
+            offset = struct.calcsize(prefix + sofar) - size
+            if c == "s":
+                items.append(("s", n, False, offset))
+            else:
+                if size != _INT_CODES[c][0]:
+                    raise UnsupportedFormat(fmt)
+                items.append((c, size, _INT_CODES[c][1], offset))
         pos = m.end()
-    total = sum(n for _, n, _ in items)
-    assert total == struct.calcsize(fmt), (fmt, total)
+    total = struct.calcsize(fmt)
     _fmt_cache[fmt] = (order, items, total)
     return _fmt_cache[fmt]
 
@@ -97,14 +107,12 @@ def model_unpack(fmt, buf):
     if len(buf) != total:
         raise struct.error("unpack requires a buffer of %d bytes" % total)
     out = []
-    pos = 0
-    for code, n, signed in items:
+    for code, n, signed, pos in items:
         piece = buf[pos:pos + n]
         if code == "s":
             out.append(piece)
         else:
             out.append(bytes_to_int([piece[i] for i in range(n)], order == "little", signed))
-        pos += n
     STATS["struct_unpack"] += 1
     return tuple(out)
 
@@ -236,7 +244,11 @@ def model_pack(fmt, *vals):
     if len(vals) != len(items):
         raise struct.error("pack expected %d items for packing (got %d)" % (len(items), len(vals)))
     out = b""
-    for (code, n, signed), v in zip(items, vals):
+    cur = 0
+    for (code, n, signed, pos), v in zip(items, vals):
+        if pos > cur:
+            out = out + b"\x00" * (pos - cur)      # native alignment padding ('@' only)
+        cur = pos + n
         if code == "s":
             if not isinstance(v, (bytes, bytearray)):
                 raise struct.error("argument for 's' must be a bytes object")
@@ -248,6 +260,8 @@ def model_pack(fmt, *vals):
             out = out + piece
         else:
             out = out + _bytes_from_parts(_int_to_bytes(v, n, order, signed))
+    if total > cur:
+        out = out + b"\x00" * (total - cur)
     STATS["struct_pack"] += 1
     return out
 
@@ -266,6 +280,29 @@ def _p_Struct_unpack(self, buf):
 
 def _p_Struct_pack(self, *vals):
     return model_pack(self.format, *vals)
+
+
+def model_iter_unpack(fmt, buf):
+    order, items, total = parse_fmt(fmt)
+    if total == 0:
+        raise struct.error("cannot iteratively unpack with a struct of length 0")
+    n = len(buf)
+    if n % total != 0:
+        raise struct.error("iterative unpacking requires a buffer of a multiple of %d bytes" % total)
+    out = []
+    pos = 0
+    while pos < n:
+        out.append(model_unpack(fmt, buf[pos:pos + total]))
+        pos += total
+    return iter(out)
+
+
+def _p_struct_iter_unpack(fmt, buf):
+    return model_iter_unpack(fmt, buf)
+
+
+def _p_Struct_iter_unpack(self, buf):
+    return model_iter_unpack(self.format, buf)
 
 
 # --------------------------------------------------------------------------------------
@@ -312,6 +349,9 @@ def _h_and(op, a: Union[SymbolicInt, int], b: Union[SymbolicInt, int]):
         if a_sym and b_sym:
             if _rep(a).disjoint(_rep(b)):
                 return 0
+            r = _rep(a).bitwise(_rep(b), "and")
+            if r is not None:
+                return _mk(r)
             STATS["fallback_concretise"] += 1
             return realize(a) & realize(b)
         if not a_sym and not b_sym:
@@ -334,6 +374,9 @@ def _h_or_xor(op, a: Union[SymbolicInt, int], b: Union[SymbolicInt, int]):
         if ra.disjoint(rb):
             return _mk(ra.merge(rb))
         if a_sym and b_sym:
+            r = ra.bitwise(rb, "or" if op is ops.or_ else "xor")
+            if r is not None:
+                return _mk(r)
             STATS["fallback_concretise"] += 1
             return op(realize(a), realize(b))
         x, c = (a, int(b)) if a_sym else (b, int(a))
@@ -519,6 +562,8 @@ def install():
     reg[struct.pack] = _p_struct_pack
     reg[struct.Struct.unpack] = _p_Struct_unpack
     reg[struct.Struct.pack] = _p_Struct_pack
+    reg[struct.iter_unpack] = _p_struct_iter_unpack
+    reg[struct.Struct.iter_unpack] = _p_Struct_iter_unpack
     reg[int.from_bytes] = _p_int_from_bytes
     SymbolicInt.to_bytes = _symint_to_bytes
     _orig_str_mod = reg.get(str.__mod__)
@@ -582,7 +627,7 @@ def self_validate(seed=0):
     n_struct = n_bits = 0
     # --- struct (run concretely: the model functions are ordinary Python on concrete values)
     fmts = ["<B", ">H", "<I", ">Q", "<b", ">h", "<i", ">q", ">2sB", "<3sH", ">BHIQ", "<bhiq", ">B4sH", "<0sB", ">1s",
-            ">HH", "<QB"]
+            ">HH", "<QB", "@BH", "@BHiQ", "=BHiQ", "@HBI", "@B3sH", "=hB", "@QB"]
     for fmt in fmts:
         order, items, total = parse_fmt(fmt)
         for _ in range(40):
@@ -593,6 +638,8 @@ def self_validate(seed=0):
             assert model_unpack(fmt, raw) == struct.unpack(fmt, raw), (fmt, raw)
             vals = struct.unpack(fmt, raw)
             assert bytes(model_pack(fmt, *vals)) == struct.pack(fmt, *vals), (fmt, vals)
+            if total:
+                assert list(model_iter_unpack(fmt, raw * 3)) == list(struct.iter_unpack(fmt, raw * 3)), fmt
             n_struct += 2
         for bad_len in (total - 1, total + 1):
             if bad_len < 0:
@@ -604,7 +651,7 @@ def self_validate(seed=0):
                 except struct.error:
                     pass
         # out of range / wrong type on pack
-        for idx, (code, n, signed) in enumerate(items):
+        for idx, (code, n, signed, _off) in enumerate(items):
             base = list(struct.unpack(fmt, b"\x00" * total))
             cands = [b"xy", None, 1.5, "1"] if code != "s" else [1, None, "ab", b"", b"abcdefgh"]
             if code != "s":
